@@ -309,6 +309,291 @@ def mesh_cli_route(ctx, rounds):
         shutil.rmtree(d, ignore_errors=True)
 
 
+# ---------------------------------------------------------------- phase 6 G1: dimensions of the quantifier sampled at one point only
+P6G_OFF = os.environ.get("FCV_P6G_OFF") == "1"      # mutation experiments only: run the check WITHOUT the phase-6-G1 batches
+
+LONG_QUICK = [0, 1001, 65537]
+LONG_THOROUGH = LONG_QUICK + [1000, 100003, 4097, 16385, 65536, 131073, 262145, 1000003]
+LONG_FAMILIES = [("i32", "i32"), ("u8", "u8"), ("i64", "i64"), ("u64", "u64"), ("i8", "i64"), ("u16", "i32"), ("str", "str"),
+                 ("i32", "f64"), ("f64", "f64")]
+
+
+def _long_pair(c):
+    """literal description -> (A, B): a = the pattern repeated over n rows of k entries, b = a (converted to b's type) with
+    at most ONE entry replaced"""
+    n, k, pat = c["n"], c["k"], c["pattern"]
+    size = n * k
+    a = (pat * (size // len(pat) + 1))[:size]
+    b = [float(x) for x in a] if c["dt_b"] == "f64" and c["dt_a"] != "f64" else list(a)
+    if c["dev_index"] is not None:
+        b[c["dev_index"]] = c["dev_value"]
+    shape = [n] if k == 1 else [n, k]
+    A, B = {"dt": c["dt_a"], "shape": shape, "v": a}, {"dt": c["dt_b"], "shape": list(shape), "v": b}
+    return (B, A) if c["swap"] else (A, B)
+
+
+def _long_spec(c):
+    """what C09 demands for a long pair: identical entries everywhere except (possibly) one"""
+    if c["dev_index"] is None:
+        return "T"
+    i, pat = c["dev_index"], c["pattern"]
+    x, y = pat[i % len(pat)], c["dev_value"]
+    if c["pred"] == "exact" or "f64" not in (c["dt_a"], c["dt_b"]):
+        return "T" if x == y else "F"
+    rel = 2.0 ** -52 if c["rel"][0] == "dflt" else float(c["rel"][1])
+    abs_ = 0.0 if c["abs"][0] == "dflt" else float(c["abs"][1])
+    return "T" if predio.float_formula(float(x), float(y), rel, abs_) else "F"
+
+
+def long_and_empty(ctx, sizes):
+    """'all positions of a differing entry' on fields of realistic length (and on EMPTY fields): 0, 1000, 1001, 65537,
+    100003 rows [thorough: up to 1000003], (n,) and (n,3); same / mixed integer types, strings, int next to float64,
+    float64 under ExactEquality [quick: 0, 1001, 65537 rows]; the single differing entry in the first row / the last row / right after the largest
+    power of two / nowhere; huge user tolerances.  Expectation: C09's statement at the one differing entry (all others are
+    identical).  The Lean model is asked for n <= 1001 (driver cost grows with the length)."""
+    rng = ctx.rng
+    todo = []
+    for n in sizes:
+        for da, db in LONG_FAMILIES:
+            k = rng.choice([1, 1, 3])
+            size = n * k
+            if da == "str":
+                pat = [rng.choice(WORDS) for _ in range(7)]
+            elif da == "f64":
+                pat = [c01.rand_float(rng, [0, 3]) for _ in range(7)]
+            else:
+                lo = max(INTS[da][0], INTS[db][0] if db in INTS else -2 ** 53)
+                hi = min(INTS[da][1], INTS[db][1] if db in INTS else 2 ** 53)
+                pat = [max(lo, min(hi, rng.choice([rng.randint(-100, 100), hi, lo, 2 ** 31 + 5]))) for _ in range(7)]
+                if db == "f64":
+                    pat = [max(-2 ** 31 + 1, min(2 ** 31 - 1, x)) for x in pat]      # exactly convertible, no type minimum
+            p2 = 1 << max((n - 1).bit_length() - 1, 0)
+            rows = [None] if n == 0 else ([None, 0, n - 1] + ([p2] if 0 < p2 < n - 1 else []))
+            if n > 1001 and ctx.tier == "quick":
+                # the implementation locates the first differing row with a Python loop (~3 us per row): one late position per
+                # family in the quick tier
+                rows = [None, 0, rng.choice(rows[2:])]
+            for row in rows:
+                if row is None:
+                    idx = dev = None
+                else:
+                    idx = row * k + rng.randrange(k)
+                    x = pat[idx % 7]
+                    if da == "str":
+                        dev = rng.choice([w for w in WORDS if w != x])
+                    elif da == "f64":
+                        dev = float(np.nextafter(x, np.inf))
+                    elif db == "f64":
+                        dev = float(x) + rng.choice([0.5, 1.0, -1.0])
+                    else:
+                        lo, hi = INTS[db]
+                        dev = x + 1 if x + 1 <= hi else x - 1
+                # ExactEquality on an integer array next to a float64 array is left out: the statement does not say whether
+                # 5 and 5.0 are "identical" (numpy says yes, the Lean model's typed `exactCheck` says no while the driver
+                # reports hyp=1 for every `exact` line — noted in notes/PHASE6_G1.md as a gap of the machinery)
+                pred = "exact" if da == "f64" else "default" if db == "f64" else rng.choice(["default", "default", "exact"])
+                rel = rng.choice([["num", 1e300], ["num", 0.5], ["dflt"]]) if db != "f64" else rng.choice([["num", 1e-3], ["dflt"]])
+                abs_ = rng.choice([["num", 1e300], ["num", 10.0], ["dflt"]]) if db != "f64" else ["num", rng.choice([0.0, 0.75])]
+                todo.append({"kind": "long", "pred": pred, "dt_a": da, "dt_b": db, "n": n, "k": k, "pattern": pat, "dev_index": idx,
+                             "dev_row": row, "dev_value": dev, "rel": rel, "abs": abs_, "swap": rng.random() < 0.5})
+    lines, lidx = [], []
+    for j, c in enumerate(todo):
+        if c["n"] <= 1001 and c["dev_row"] in (None, c["n"] - 1):
+            A, B = _long_pair(c)
+            lines.append(predio.enc_pred(c["pred"], c["rel"], c["abs"], A, B)); lidx.append(j)
+    reps = [None] * len(todo)
+    if ctx.driver_ok and lines:
+        for j, r in zip(lidx, ctx.lean(lines)):
+            reps[j] = r
+    cache = {}
+    for c, rep in zip(todo, reps):
+        # the ndarrays of the unmodified pair are built once per (length, family); the replay rebuilds from the literals
+        key = (c["n"], c["k"], c["dt_a"], c["dt_b"])
+        if key not in cache:
+            cache.clear()
+            A0, B0 = _long_pair(dict(c, dev_index=None, swap=False))
+            cache[key] = (predio.np_array(A0), predio.np_array(B0))
+        xa, xb = cache[key]
+        if c["dev_index"] is not None:
+            xb = xb.copy()
+            if xb.dtype.kind == "U":
+                xb = xb.astype(f"<U{max(xb.dtype.itemsize // 4, len(c['dev_value']), 1)}")
+            xb.reshape(-1)[c["dev_index"]] = c["dev_value"]
+        x, y = (xb, xa) if c["swap"] else (xa, xb)
+        p = predio.make_pred(c["pred"], c["rel"], c["abs"])
+        try:
+            with np.errstate(all="ignore"):
+                impl = "T" if bool(p(x, y)) else "F"
+        except Exception as e:  # noqa: BLE001
+            impl = "E" if type(e).__name__ == "PredicateError" else "X:" + type(e).__name__
+        spec = _long_spec(c)
+        where = "none" if c["dev_row"] is None else "first" if c["dev_row"] == 0 else "last" if c["dev_row"] == c["n"] - 1 else "after-pow2"
+        ctx.case(("long", c["pred"], c["dt_a"], c["dt_b"], c["n"], c["k"], c["dev_index"], str(c["dev_value"]), str(c["rel"]), str(c["abs"]), c["swap"]),
+                 nontrivial=c["dev_index"] is not None,
+                 tags=["p6-long", f"long-n={c['n']}", "long-diff-" + where, f"long-{c['dt_a']}/{c['dt_b']}", "long-" + c["pred"],
+                       "verdict-" + impl], sample=None)
+        if rep is not None and rep.get("hyp") == "1":
+            if rep["model"] != impl:
+                ctx.mismatch(c, impl, rep["model"], what="long / empty field: impl vs model")
+            if rep["spec"] != rep["model"]:
+                ctx.inconsistent(c, rep["model"], rep["spec"])
+            if rep["spec"] != spec:
+                ctx.inconsistent(c, "lean-spec=" + rep["spec"], "python-spec=" + spec)
+        elif rep is not None and "hyp" not in rep:
+            ctx.inconsistent(c, str(rep), "bad-op")
+        if impl != spec:
+            ctx.violation(c, impl, spec, what=f"DefaultEquality/ExactEquality verdict differs from C09's statement: fields of {c['n']} rows, "
+                                              f"differing entry in row {c['dev_row']}")
+
+
+def gen_tolkind_case(rng):
+    """integer / string fields of shapes (n,k), (n,k,k) under the tolerance kinds the plain generator never combines with
+    them: per-component ndarrays, per-component scaled, scaled relative (default base) — 'whatever tolerances are set'"""
+    n = rng.choice([0, 1, 2, 5])
+    k = rng.choice([2, 3])
+    entry = [k] if rng.random() < 0.6 else [k, k]
+    rs = k if len(entry) == 1 else k * k
+    shape = [n] + entry
+    size = n * rs
+    fam = rng.choice(["int", "int", "str"])
+    if fam == "int":
+        da = rng.choice(list(INTS)); db = da if rng.random() < 0.6 else rng.choice(list(INTS))
+        lo = max(INTS[da][0], INTS[db][0]); hi = min(INTS[da][1], INTS[db][1])
+        a = [max(lo, min(hi, rand_int(rng, da))) for _ in range(size)]
+    else:
+        da = db = "str"
+        a = [rng.choice(WORDS) for _ in range(size)]
+    b = list(a)
+    tags = ["p6-tolkinds", "tolkind-" + fam, "entry-" + "x".join(map(str, entry)), f"n={n}"]
+    if size and rng.random() < 0.7:
+        i = rng.choice([0, size - 1, rng.randrange(size)])
+        if fam == "str":
+            b[i] = rng.choice([w for w in WORDS if w != a[i]])
+        else:
+            b[i] = a[i] + 1 if a[i] + 1 <= hi else a[i] - 1
+        tags.append("diff-one")
+    else:
+        tags.append("diff-none")
+    big = [1.0, 10.0, 1e300, 1e18]
+    tk = rng.choice(["arr/arr", "num/arr", "arr/scomp", "scaled-rel/num", "num/scomp", "num/scaled"])
+    rel = {"arr": ["arr", entry, [rng.choice(big) for _ in range(rs)]], "num": ["num", rng.choice(big)],
+           "scaled-rel": ["scaled", None]}[tk.split("/")[0]]
+    abs_ = {"arr": ["arr", entry, [rng.choice(big) for _ in range(rs)]], "num": ["num", rng.choice(big)],
+            "scomp": ["scomp", rng.choice([1.0, 1e3])], "scaled": ["scaled", rng.choice([1.0, 1e3])]}[tk.split("/")[1]]
+    tags.append("tolkind-" + tk)
+    A, B = {"dt": da, "shape": shape, "v": a}, {"dt": db, "shape": list(shape), "v": b}
+    if rng.random() < 0.5:
+        A, B = B, A
+    return {"kind": "default", "rel": rel, "abs": abs_, "a": A, "b": B}, tags
+
+
+def gen_representation_case(rng):
+    """the plain generator's cases with the SAME values handed over in another layout / container: Fortran order, strided /
+    reversed / offset views, big-endian storage, read-only arrays (np.frombuffer in the file readers), Python lists / tuples"""
+    while True:
+        c, tags = gen_case(rng)
+        changed = False
+        for side in ("a", "b"):
+            if rng.random() < 0.8:
+                reps = [r for r in predio.REPS_ARRAY + predio.REPS_PY if predio.rep_applicable(c[side], r)]
+                if reps:
+                    r = rng.choice(reps)
+                    c[side] = dict(c[side], rep=r); tags.append(f"rep-{side}-{r}"); changed = True
+        if changed:
+            return c, tags + ["p6-representation"]
+
+
+def gen_python_sequence_case(rng):
+    """directed: integer / string data handed over as plain Python lists / tuples (on one or both sides; the other side an
+    int64 / str ndarray or also a sequence), ONE differing entry, large user tolerances — must stay exact"""
+    n = rng.choice([1, 2, 5]); k = rng.choice([1, 1, 3])
+    shape = [n] if k == 1 else [n, k]
+    size = n * k
+    if rng.random() < 0.7:
+        dt = "i64"
+        a = [rng.choice([rng.randint(-1000, 1000), 2 ** 53 + 1, -(2 ** 62), 7]) for _ in range(size)]
+        b = list(a)
+        i = rng.randrange(size)
+        b[i] = a[i] + rng.choice([1, -1, 2])
+    else:
+        dt = "str"
+        a = [rng.choice(WORDS) for _ in range(size)]
+        b = list(a)
+        i = rng.randrange(size)
+        b[i] = rng.choice([w for w in WORDS if w != a[i]])
+    tags = ["p6-representation", "p6-python-sequences", "seq-" + dt]
+    if rng.random() < 0.25:
+        b = list(a); tags.append("diff-none")
+    ra, rb = rng.choice([("list", "list"), ("list", None), (None, "tuple"), ("tuple", "list")])
+    A, B = {"dt": dt, "shape": shape, "v": a}, {"dt": dt, "shape": list(shape), "v": b}
+    if ra:
+        A["rep"] = ra
+    if rb:
+        B["rep"] = rb
+    rel = rng.choice([["num", 0.5], ["num", 1e300], ["dflt"]])
+    abs_ = rng.choice([["num", 10.0], ["num", 1e300]])
+    return {"kind": "default", "rel": rel, "abs": abs_, "a": A, "b": B}, tags + [f"rep-a-{ra}", f"rep-b-{rb}"]
+
+
+def reused_default(ctx, n):
+    """ONE DefaultEquality object (as the CLI holds one per run) asked about a sequence of fields of alternating kinds —
+    float, integer, string, int next to float — under large tolerances: every verdict is C09's statement for THAT field"""
+    rng = ctx.rng
+    for _ in range(n):
+        rel = rng.choice([t for t in TOLS if t[0] != "dflt"] + [["dflt"]])
+        abs_ = rng.choice([t for t in TOLS if t[0] != "dflt"])
+        pred = predio.make_pred("default", rel, abs_)
+        hist = []
+        for use in range(rng.randint(3, 5)):
+            while True:
+                c, tags = gen_case(rng)
+                if c["kind"] == "default":
+                    break
+            c = dict(c, rel=rel, abs=abs_)
+            impl = predio.run_impl("default", rel, abs_, c["a"], c["b"], pred=pred)
+            spec = spec_of(c)
+            hist.append({"a": c["a"], "b": c["b"]})
+            ctx.case(("reuse", use, str(rel), str(abs_), c["a"], c["b"]), nontrivial=(c["a"]["v"] != c["b"]["v"]),
+                     tags=["p6-reused-default", f"use-{use}", "reuse-" + tags[0], "verdict-" + impl], sample=None)
+            if spec is not None and impl != spec:
+                ctx.violation(dict(c, history=list(hist)), impl, spec,
+                              what="verdict of a REUSED DefaultEquality object differs from C09's statement (field number %d "
+                                   "asked of the same object)" % use)
+                break
+
+
+def int_vs_small_float(ctx, n):
+    """integer field next to a float32 / float16 field ('at least one side holds floating-point values' -> fuzzy formula).
+    Values are small integers and halves (|v| <= 100), exactly representable in every format involved, and tolerances are
+    far from every threshold, so the documented formula has the same value in every arithmetic: identical values pass
+    under zero tolerances, a difference of 0.5 / 1 fails under abs 0.25 and PASSES under abs 2 (fuzzy, not exact).
+    Expectation computed in Python from the formula (search; the Lean model has no int x float32 case)."""
+    rng = ctx.rng
+    for _ in range(n):
+        di = rng.choice(list(INTS)); df = rng.choice(["f32", "f32", "f16"])
+        lo = max(INTS[di][0], -100)
+        nrow = rng.choice([1, 2, 5]); k = rng.choice([1, 3])
+        shape = [nrow] if k == 1 else [nrow, k]
+        a = [rng.randint(lo, 100) for _ in range(nrow * k)]
+        b = [float(x) for x in a]
+        diff = rng.choice([0.0, 0.5, 1.0, -1.0])
+        i = rng.randrange(len(a))
+        b[i] += diff
+        rel = rng.choice([["num", 0.0], ["dflt"]])
+        abs_ = ["num", rng.choice([0.0, 0.25, 2.0])]
+        want = "T" if abs(diff) <= abs_[1] else "F"          # rel * max|.| <= 2^-10 * 101 < 0.25: never decides
+        A, B = {"dt": di, "shape": shape, "v": a}, {"dt": df, "shape": list(shape), "v": b}
+        if rng.random() < 0.5:
+            A, B = B, A
+        c = {"kind": "default", "rel": rel, "abs": abs_, "a": A, "b": B, "int_vs_small_float": True}
+        impl = predio.run_impl("default", rel, abs_, A, B)
+        ctx.case(("int-smallfloat", str(rel), str(abs_), A, B), nontrivial=diff != 0.0,
+                 tags=["p6-int-vs-small-float", f"{di}/{df}", "isf-diff-%g" % abs(diff), "isf-abs-%g" % abs_[1], "verdict-" + impl], sample=None)
+        if impl != want:
+            ctx.violation(c, impl, want, what="integer field next to a float32/float16 field: verdict differs from the fuzzy formula "
+                                              "(values exactly representable, tolerance far from the threshold)")
+
+
 def run(ctx):
     ctx.rule = ("cases = (predicate kind, tolerances, a, b) over int8..uint64 (same and mixed types, type extremes, "
                 "±1 around 2^53), unicode strings, int×float64, float64; one differing entry at none/first/middle/last; "
@@ -330,8 +615,18 @@ def run(ctx):
         cases.append(c); tagsl.append(t)
     dc, dt = float_collision_cases(rng)
     cases += dc; tagsl += dt
+    if not P6G_OFF:
+        for gen, m in ((gen_tolkind_case, ctx.scale(400, 20000)), (gen_representation_case, ctx.scale(600, 30000)),
+                       (gen_python_sequence_case, ctx.scale(120, 6000))):
+            for _ in range(m):
+                c, t = gen(rng)
+                cases.append(c); tagsl.append(t)
     for i in range(0, len(cases), 5000):
         evaluate(ctx, cases[i:i + 5000], tagsl[i:i + 5000])
+    if not P6G_OFF:
+        long_and_empty(ctx, LONG_QUICK if ctx.tier == "quick" else LONG_THOROUGH)
+        reused_default(ctx, ctx.scale(80, 4000))
+        int_vs_small_float(ctx, ctx.scale(300, 15000))
     cli_cases(ctx, ctx.scale(60, 2000))
     mesh_route(ctx, ctx.scale(3, 60))
     mesh_cli_route(ctx, ctx.scale(3, 40))
@@ -363,6 +658,34 @@ def replay(ctx, payload):
             shutil.rmtree(d, ignore_errors=True)
         print(f"replay: fieldcompare file <source> <reference> {' '.join(mi.cli_options(c))} -> {r}; changed entries: {c['changed']}")
         if (c["changed"] and r["out"] == "0") or (not c["changed"] and r["out"] != "0" and r["failed_fields"]):
+            print("VIOLATION property=C09 replay=<replayed>")
+            return 1
+        return 0
+    if c.get("kind") == "long":
+        A, B = _long_pair(c)
+        impl, spec = predio.run_impl(c["pred"], c["rel"], c["abs"], A, B), _long_spec(c)
+        print(f"replay long field n={c['n']} k={c['k']} {c['dt_a']}/{c['dt_b']} differing row {c['dev_row']}: impl={impl} demanded={spec}")
+        if impl != spec:
+            print("VIOLATION property=C09 replay=<replayed>")
+            return 1
+        return 0
+    if c.get("int_vs_small_float"):
+        impl = predio.run_impl("default", c["rel"], c["abs"], c["a"], c["b"])
+        d = max(abs(float(x) - float(y)) for x, y in zip(c["a"]["v"], c["b"]["v"]))
+        want = "T" if d <= c["abs"][1] else "F"
+        print(f"replay int vs small float: impl={impl} demanded={want}")
+        if impl != want:
+            print("VIOLATION property=C09 replay=<replayed>")
+            return 1
+        return 0
+    if "history" in c:
+        pred = predio.make_pred("default", c["rel"], c["abs"])
+        impl = None
+        for h in c["history"]:
+            impl = predio.run_impl("default", c["rel"], c["abs"], h["a"], h["b"], pred=pred)
+        spec = spec_of(c)
+        print(f"replay (reused DefaultEquality, {len(c['history'])} fields): impl={impl} demanded={spec}")
+        if spec is not None and impl != spec:
             print("VIOLATION property=C09 replay=<replayed>")
             return 1
         return 0
